@@ -28,7 +28,8 @@
 (*   "opt" a command line option, "raw" a token rewritten by a fault.            *)
 (* Special texts rendered by the harness: "<LONGD>" / "<LONGA>" a 10^6 character *)
 (*   run of digits / letters, "<WS>" blanks and tabs, "<BASE>" a scratch path,   *)
-(*   "<NEARPREV>" / "<SAMEPREV>" the previous field's value + 3 ulp / unchanged. *)
+(*   "<NEARPREV>" / "<SAMEPREV>" the previous field's value + 3 ulp / unchanged, *)
+(*   "<FLOOD0>" 5000 blank-separated zeros.                                      *)
 EXTENDS Integers, Sequences, FiniteSets, TLC
 
 CONSTANTS
@@ -67,7 +68,7 @@ NumLines(s) == Cardinality({i \in 1..Len(s) : LineStart(s, i)})
 (* Fault kinds *)
 
 PosKinds == {"truncate", "nonnumeric", "negative", "zero", "one", "hugecount", "overflow", "nan", "inf",
-             "missing", "extra", "long", "dupline", "dropline", "emptytok", "nearprev", "sameprev"}
+             "missing", "extra", "long", "dupline", "dropline", "emptytok", "nearprev", "sameprev", "flood"}
 DocKinds == {"empty", "wsonly", "crlf", "nofinalnl", "unknownopt"}
 
 (* Roles for which a huge-but-representable number is a legitimate (if expensive) *)
@@ -107,6 +108,7 @@ Applicable(f, k, i) ==
           [] k \in {"nan", "inf"} -> Kind(t) = "real"
           [] k \in {"nearprev", "sameprev"} -> Kind(t) = "real" /\ i > 1 /\ Kind(s[i - 1]) = "real"
           [] k \in {"missing", "extra", "long"} -> ~IsNl(t)
+          [] k = "flood" -> ~argv /\ IsNum(t)            \* a row that goes on and on: thousands of surplus zero values
           [] k \in {"dupline", "dropline"} -> ~argv /\ LineStart(s, i)
           [] k = "emptytok" -> argv
           [] OTHER -> FALSE
@@ -131,6 +133,7 @@ Apply(f, k, i) ==
     [] k \in Rewrites   -> [s EXCEPT ![i] = Raw(s[i], FaultText(k, s[i]))]
     [] k = "missing"    -> RemoveRange(s, i, i)
     [] k = "extra"      -> InsertAfter(s, i, <<s[i]>>)
+    [] k = "flood"      -> InsertAfter(s, i, << <<"raw", Role(s[i]), "<FLOOD0>">> >>)
     [] k = "dupline"    -> InsertAfter(s, LineEnd(s, i), SubSeq(s, i, LineEnd(s, i)))
     [] k = "dropline"   -> RemoveRange(s, i, LineEnd(s, i))
     [] k = "empty"      -> <<>>
@@ -158,7 +161,8 @@ Symptoms == Allowed \cup {"crash", "oob", "ub", "alloc", "hang"}
 (* One token can feed at most two fields ("0.25" read as an integer yields 0    *)
 (* and leaves ".25" for the next field), hence the factor 2.                    *)
 (* A catalogue list yields at most one entry per non-empty line.                *)
-Bound(s) == [values |-> 2 * NumTok(s), entries |-> NumLines(s)]
+Floods(s) == Cardinality({i \in 1..Len(s) : Text(s[i]) = "<FLOOD0>"})
+Bound(s) == [values |-> 2 * (NumTok(s) + 5000 * Floods(s)), entries |-> NumLines(s) + 5000 * Floods(s)]
 
 Required(s) == [allowed |-> Allowed, bound |-> Bound(s)]
 
@@ -240,7 +244,7 @@ OneEdit ==
         keep == Len(s) - LineEnd(s, a)       \* tokens after the line of the fault
     IN keep <= Len(doc) /\ tail(doc, keep) = tail(s, keep)
 
-(* the bounds never exceed what a document one line longer could hold *)
-BoundSane == verdict.bound.values <= 2 * (NumTok(Doc[fmt]) + Len(Doc[fmt])) /\ verdict.bound.values >= 0
+(* the bounds never exceed what a document one line longer could hold (plus the values of a flooded row) *)
+BoundSane == verdict.bound.values <= 2 * (NumTok(Doc[fmt]) + Len(Doc[fmt]) + 5000 * Floods(doc)) /\ verdict.bound.values >= 0
 
 =============================================================================
